@@ -48,6 +48,8 @@ namespace
   bool g_test_may_lag = false;
   minimpi::Stats g_stats;
   unsigned long long g_fruitless_tests = 0;
+  unsigned long long g_progress = 0;             // counts posts / completions / cancellations of all ranks
+  thread_local unsigned long long tl_fruitless_at = ~0ull;   // g_progress at this rank's last unsuccessful Test* call
 
   inline int my_world_rank() { return tl_rank >= 0 ? tl_rank : 0; }
   inline int my_world_size() { return tl_rank >= 0 ? g_P : 1; }
@@ -251,6 +253,7 @@ namespace
     g_self_single = CommObj(); g_self_single.ctx = 3; g_self_single.group.assign(1, 0); g_self_single.seq.assign(1, 0); g_self_single.freed.assign(1, 0);
     g_stats = minimpi::Stats();
     g_fruitless_tests = 0;
+    g_progress = 0;
   }
   struct StaticInit { StaticInit() { reset_state(1); } } g_static_init;
 
@@ -282,6 +285,7 @@ namespace
 
   int post_p2p(const P2P& op)
   {
+    ++g_progress;
     g_p2p.push_back(op);
     const int idx = int(g_p2p.size()) - 1;
     Queues& q = g_queues[op.ctx];
@@ -396,6 +400,8 @@ namespace
     r.active = false;
     *h = MPI_REQUEST_NULL;
     g_fruitless_tests = 0;
+    ++g_progress;
+    tl_fruitless_at = ~0ull;
   }
 
   struct ReqSet { int n; const MPI_Request* reqs; };
@@ -422,8 +428,18 @@ namespace
     return act;
   }
 
+  int pred_progress(void* p) { return g_progress != *static_cast<unsigned long long*>(p) ? 1 : 0; }
+  /// Fairness of polling loops: a rank whose last Test* call was unsuccessful and for which nothing has happened since
+  /// (no rank posted, completed or cancelled anything) waits until some other rank has acted. Without this the polling
+  /// rank would keep the processor for ever under the default schedule while another poller starves. If nobody can act
+  /// any more the scheduler reports the deadlock (= a polling loop that can never succeed).
+  void poll_fairness()
+  {
+    if(tl_fruitless_at == g_progress) { unsigned long long at = g_progress; vs_wait_until(pred_progress, &at, TAG_TEST); }
+  }
   void note_fruitless(const char* what)
   {
+    tl_fruitless_at = g_progress;
     if(++g_fruitless_tests > 200000ull) die("%s: 200000 consecutive unsuccessful Test calls without any completion (livelock of a polling loop)", what);
   }
 
@@ -668,6 +684,7 @@ extern "C" int MPI_Test(MPI_Request* request, int* flag, MPI_Status* status)
   check_caller("MPI_Test");
   if(*request == MPI_REQUEST_NULL) { *flag = 1; empty_status(status); return MPI_SUCCESS; }
   get_req(*request, "MPI_Test");
+  poll_fairness();
   vs_wait_quiescent(TAG_TEST);   // scheduling point: everybody else makes maximal progress first
   if(req_complete(g_reqs[size_t(*request - 1)]) && !lag()) { *flag = 1; finish_req(request, status); }
   else { *flag = 0; note_fruitless("MPI_Test"); }
@@ -678,6 +695,7 @@ extern "C" int MPI_Testall(int count, MPI_Request reqs[], int* flag, MPI_Status 
 {
   check_caller("MPI_Testall");
   validate_array(count, reqs, "MPI_Testall");
+  poll_fairness();
   vs_wait_quiescent(TAG_TEST);
   ReqSet s{count, reqs};
   if(pred_all(&s) && !lag())
@@ -697,6 +715,7 @@ extern "C" int MPI_Testany(int count, MPI_Request reqs[], int* index, int* flag,
 {
   check_caller("MPI_Testany");
   if(validate_array(count, reqs, "MPI_Testany") == 0) { *index = MPI_UNDEFINED; *flag = 1; empty_status(status); return MPI_SUCCESS; }
+  poll_fairness();
   std::vector<int> done = completed_after_quiescence(count, reqs, false);
   if(done.empty() || lag()) { *flag = 0; *index = MPI_UNDEFINED; note_fruitless("MPI_Testany"); return MPI_SUCCESS; }
   const int k = vs_choose(int(done.size()), TAG_CHOOSE_ANY);
@@ -709,6 +728,7 @@ extern "C" int MPI_Testsome(int incount, MPI_Request reqs[], int* outcount, int 
 {
   check_caller("MPI_Testsome");
   if(validate_array(incount, reqs, "MPI_Testsome") == 0) { *outcount = MPI_UNDEFINED; return MPI_SUCCESS; }
+  poll_fairness();
   std::vector<int> done = completed_after_quiescence(incount, reqs, false);
   if(done.empty() || lag()) { *outcount = 0; note_fruitless("MPI_Testsome"); return MPI_SUCCESS; }
   int n = 0;
@@ -736,6 +756,7 @@ extern "C" int MPI_Cancel(MPI_Request* request)
   if(!o.matched && !o.cancelled && !(o.is_send && o.eager))
   {
     o.cancelled = true;
+    ++g_progress;
     unqueue(r.p2p);
   }
   return MPI_SUCCESS;
